@@ -368,3 +368,41 @@ def gen_f6(rng, big=False):
     h = s.unit("U", "N", 1, ["w", "M%d:1" % u, "o"])
     s.main += ["C%d" % u, "C%d" % h, "F%d" % h, "D%d" % u, "p%d" % u, "F%d" % u]
     return s.text()
+
+
+def gen_mig_switch(rng, big=False):
+    """a pending (self-)migration handled inside the callback of a directed switch: old ABT_thread_yield_to (pre-increment
+    / decrement of the caller's pool), self_yield_to, resume_yield_to, suspend_to, resume_suspend_to"""
+    nes, pools, es = topology(rng, max_es=2)
+    while nes < 1:
+        nes, pools, es = topology(rng, max_es=2)
+    s = Scn(rng, nes, pools)
+    for e, sch, mine in es:
+        s.es(e, sch, mine)
+    sched_pools = [99] + [m for _, _, mine in es for m in mine]
+    frees = []
+    for _ in range(rng.randint(1, 3)):
+        src = rng.choice(sched_pools)
+        dst = rng.choice([p for p in sched_pools if p != src])
+        how = rng.choice(["thread_yield_to", "thread_yield_to", "yield_to", "suspend_to", "resume_yield_to"])
+        park = s.add_pool()
+        if how in ("thread_yield_to", "yield_to"):
+            b = s.unit("U", "N", park, ["W"])
+            u = s.unit("U", "N", src, [])
+            s.units[u][3] = ["W", "M%d:%d" % (u, dst), ("t%d" if how == "thread_yield_to" else "y%d") % b, "W", "Y", "W"]
+            s.main += ["C%d" % b, "C%d" % u]
+            frees += [u, b]
+        elif how == "suspend_to":
+            u = s.unit("U", "N", src, [])
+            b = s.unit("U", "N", park, ["R%d" % u, "W"])
+            s.units[u][3] = ["M%d:%d" % (u, dst), "s%d" % b, "W"]
+            s.main += ["C%d" % b, "C%d" % u]
+            frees += [u, b]
+        else:
+            b = s.unit("U", "N", rng.choice(sched_pools), ["W", "S", "W"])
+            u = s.unit("U", "N", src, [])
+            s.units[u][3] = ["M%d:%d" % (u, dst), "r%d" % b, "W"]
+            s.main += ["C%d" % b, "C%d" % u]
+            frees += [u, b]
+    s.main += ["F%d" % x for x in frees]
+    return s.text()
